@@ -93,7 +93,108 @@ def build(tab):
         dm = dm[list(tab['rowop'])]          # reorders / selects rows: row ids are no longer 0..n-1 in order
     for name, cells in tab.get('post') or []:
         dm[name] = [pyobs.dec(c) for c in cells]      # new values for the rows of a table with repeated row ids
+    if tab.get('hist'):
+        dm = apply_hist(dm, tab['hist'])
     return dm
+
+
+def apply_hist(dm, hist):
+    """The HISTORY of an argument table (public API only): the operation under test is applied to the state these
+    steps leave behind; what it has to return is computed from that state's cells as read position by position
+    (dump).  Steps:
+      ['sort', col]                 dm = ops.sort(dm, by=dm[col])
+      ['shuffle', seed]             dm = ops.shuffle(dm)   (the random module is seeded for the call and restored)
+      ['index', [i, ...]]           dm = dm[[i, ...]]      (distinct positions: a permutation, a partial one, a selection)
+      ['slice', a, b]               dm = dm[a:b]
+      ['length', m, [[col, cells]]] dm.length = m; the cells of added rows are then written one by one, by position
+      ['delrow', i]                 del dm[i]
+      ['concat', tab]               dm = dm << build(tab)
+      ['merge', how, [i..], [j..]]  dm = dm[[i..]] | / & / ^ dm[[j..]]
+      ['addcol', col, kind, cells]  a column created and filled at this point of the history"""
+    import random
+    from datamatrix import operations as ops
+    for st in hist:
+        k = st[0]
+        if k == 'sort':
+            dm = ops.sort(dm, by=dm[st[1]])
+        elif k == 'shuffle':
+            state = random.getstate()
+            random.seed(st[1])
+            try:
+                dm = ops.shuffle(dm)
+            finally:
+                random.setstate(state)
+        elif k == 'index':
+            dm = dm[list(st[1])]
+        elif k == 'slice':
+            dm = dm[st[1]:st[2]]
+        elif k == 'length':
+            old = len(dm)
+            dm.length = st[1]
+            for name, cells in st[2]:
+                for j, c in enumerate(cells):
+                    dm[name][old + j] = pyobs.dec(c)
+        elif k == 'delrow':
+            del dm[st[1]]
+        elif k == 'concat':
+            dm = dm << build(st[1])
+        elif k == 'merge':
+            a, b = dm[list(st[2])], dm[list(st[3])]
+            dm = (a | b) if st[1] == 'or' else (a & b) if st[1] == 'and' else (a ^ b)
+        elif k == 'addcol':
+            dm[st[1]] = coltype(st[2])
+            if len(dm):
+                dm[st[1]] = [pyobs.dec(c) for c in st[3]]
+        else:
+            raise AssertionError(st)
+    return dm
+
+
+def hist_len(tab):
+    """length of the table after its history, from the steps alone; None when a step does not fit the state it meets
+    (used to keep shrunk inputs well-formed: a candidate whose history is ill-formed is no input)"""
+    n = len(tab['rowop']) if tab.get('rowop') is not None else tab['n']
+    names = [c[0] for c in tab['cols']]
+    for st in tab.get('hist') or []:
+        k = st[0]
+        if k == 'sort':
+            if st[1] not in names:
+                return None
+        elif k == 'shuffle':
+            pass
+        elif k == 'index':
+            if len(set(st[1])) != len(st[1]) or any(not 0 <= i < n for i in st[1]):
+                return None
+            n = len(st[1])
+        elif k == 'slice':
+            if not 0 <= st[1] <= st[2] <= n:
+                return None
+            n = st[2] - st[1]
+        elif k == 'length':
+            if any(nm not in names or len(cs) != max(0, st[1] - n) for nm, cs in st[2]):
+                return None
+            n = st[1]
+        elif k == 'delrow':
+            if not 0 <= st[1] < n:
+                return None
+            n -= 1
+        elif k == 'concat':
+            if st[1].get('hist') or st[1].get('rowop') is not None or any(c[0] not in names for c in st[1]['cols']):
+                return None
+            n += st[1]['n']
+        elif k == 'merge':
+            for ix in (st[2], st[3]):
+                if len(set(ix)) != len(ix) or any(not 0 <= i < n for i in ix):
+                    return None
+            a, b = set(st[2]), set(st[3])
+            n = len(a | b if st[1] == 'or' else a & b if st[1] == 'and' else a ^ b)
+        elif k == 'addcol':
+            if st[1] in names or len(st[3]) != n:
+                return None
+            names.append(st[1])
+        else:
+            return None
+    return n
 
 
 def dump(dm):
@@ -173,7 +274,12 @@ class C15:
             'on the Python side with the tolerance max(1e-9, a-priori bound of the two-pass formula for that conditioning); '
             'plus families with a rational standard deviation (centre up to 2^50) compared exactly with the model. Every table is '
             'built with columns inserted in non-alphabetical order and in one of three row orders (as created / permuted '
-            '/ selected from a larger table). non-trivial = the result differs from the source or an exception is raised; '
+            '/ selected from a larger table). Argument tables with a HISTORY (all five operations; apply_hist): a fresh table '
+            'whose rows are reordered (ops.sort by one of its columns, ops.shuffle, an index list in which only some rows '
+            'moved, a merge | & ^ of two selections), then grown or shrunk and grown with dm.length (new cells written by '
+            'position, some left at their defaults), concatenated (<<, also with a table lacking a column), rows deleted, '
+            'slices taken, a column added late; the operation is judged against the cells of the resulting state as read '
+            'position by position (an exception while the history is built is a judged observation). non-trivial = the result differs from the source or an exception is raised; '
             'distinct by (operation, source table, parameters)')
     trusted_base = [
         'Coq 8.16.1 kernel (coqc; vm_compute for evaluating cases; no native_compute)',
@@ -243,15 +349,32 @@ class C15:
             'input': inp, 'observed': observed, 'pyfail': pyfail, 'oracle': oracle, 'model': model,
             'nontrivial': bool(nontrivial),
             'sig': '%s|%s' % (op, _compact({k: v for k, v in inp.items() if k != 'tags'})),
-            'tags': [op] + list(tags) + (['rows:' + ('asis' if t.get('rowop') is None else 'repeated-ids' if t.get('post') else 'reordered')] if t else []),
+            'tags': [op] + list(tags) + (['rows:' + ('history' if t.get('hist') else 'asis' if t.get('rowop') is None else 'repeated-ids' if t.get('post') else 'reordered')] if t else [])
+            + sorted({'%s-after:%s' % (op, st[0] if st[0] != 'length' else 'grow' if st[2] else 'shrink') for st in t.get('hist') or []}),
         }
+
+    def _source(self, inp, op):
+        """-> (source table, None) | (None, judged case): an exception escaping while the argument table is built
+        (its history uses the public API on well-formed arguments only) is an observation, not a crash"""
+        try:
+            with warnings.catch_warnings():
+                warnings.simplefilter('ignore')
+                return build(inp['tab']), None
+        except Exception as e:          # noqa: BLE001
+            msg = 'building the argument table of %s raised %s: %s' % (op, pyobs.exn_name(e), str(e)[:200])
+            return None, {'input': inp, 'observed': {'source_raises': pyobs.exn_name(e), 'msg': str(e)[:200]}, 'pyfail': msg,
+                          'oracle': 'false', 'model': 'true', 'nontrivial': True,
+                          'sig': '%s|%s' % (op, _compact({k: v for k, v in inp.items() if k != 'tags'})),
+                          'tags': [op, op + ':source-raised']}
 
     def rerun(self, inp):
         return getattr(self, '_run_' + inp['op'])(inp)
 
     def _run_weight(self, inp):
         from datamatrix import operations as ops
-        dm = build(inp['tab'])
+        dm, bad = self._source(inp, 'weight')
+        if bad is not None:
+            return bad
         src_lit, src_py, prob = dump(dm)
         w = inp['wname']
         r, obs, observed, p2 = self._outcome_tbl(lambda: ops.weight(dm[w]))
@@ -418,7 +541,9 @@ class C15:
 
     def _run_ff(self, inp):
         from datamatrix import operations as ops
-        dm = build(inp['tab'])
+        dm, bad = self._source(inp, 'ff')
+        if bad is not None:
+            return bad
         src_lit, src_py, prob = dump(dm)
         ig = pyobs.dec(inp['ignore'])
         if inp.get('default_ignore'):
@@ -449,7 +574,9 @@ class C15:
 
     def _run_replace(self, inp):
         from datamatrix import operations as ops
-        dm = build(inp['tab'])
+        dm, bad = self._source(inp, 'replace')
+        if bad is not None:
+            return bad
         src_lit, src_py, prob = dump(dm)
         name = inp['col']
         col = dm[name]
@@ -491,7 +618,9 @@ class C15:
 
     def _run_keep(self, inp):
         from datamatrix import DataMatrix, operations as ops
-        dm = build(inp['tab'])
+        dm, bad = self._source(inp, 'keep')
+        if bad is not None:
+            return bad
         # history of the source before the selection: name look-ups, renames, re-added names (all public API)
         with warnings.catch_warnings():
             warnings.simplefilter('ignore')
@@ -593,7 +722,9 @@ class C15:
 
     def _run_z(self, inp):
         from datamatrix import operations as ops
-        dm = build(inp['tab'])
+        dm, bad = self._source(inp, 'z')
+        if bad is not None:
+            return bad
         src_lit, src_py, prob = dump(dm)
         name = inp['col']
         col = dm[name]
@@ -697,6 +828,126 @@ class C15:
             rowop = keep
         return {'n': nbase, 'cols': [[nm, k, enc_cells(cs)] for nm, k, cs in tab_cols], 'rowop': rowop}, names
 
+    def _hist_table(self, rng, n, cols, nmax=None, extra=None):
+        """The columns `cols` ([(kind, cells)], n rows) as the START of a history (see apply_hist): the rows are
+        reordered (sort by one of the columns, shuffle, an index list in which only some rows moved, a merge of two
+        selections), then the table is grown, or shrunk and grown (new cells written by position, some left at their
+        defaults), concatenated with another table, rows are deleted, slices taken, a column is added late -- and only
+        then handed to the operation.  Cells written later are drawn from the column's own cells, so that the final
+        table is of the family the caller asked for (`extra`: further values per column to draw from).  Returns (tab, names) like _table; the final table has
+        1..nmax rows."""
+        if n < 1 or not cols:
+            return self._table(rng, n, cols, 'asis')
+        nmax = nmax or max(n, 3) + 1
+        names = rng.sample(NAMES, len(cols))
+        if len(names) > 1 and names == sorted(names):
+            names.reverse()
+        kinds = [k for k, _c in cols]
+        pools = [list(c) + list((extra or {}).get(j, [])) for j, (_k, c) in enumerate(cols)]
+        late = rng.randrange(len(cols)) if len(cols) > 1 and rng.random() < 0.15 else None
+        present = [j for j in range(len(cols)) if j != late]
+        base = {'n': n, 'cols': [[names[j], kinds[j], enc_cells(cols[j][1])] for j in present], 'rowop': None}
+        state = {'L': n}
+
+        def drawn(j, k):
+            return enc_cells([rng.choice(pools[j]) for _ in range(k)])
+
+        def mk(kind):
+            L = state['L']
+            if kind == 'grow':
+                m = rng.randint(L + 1, min(max(L + 1, nmax), L + 3))
+                state['L'] = m
+                return ['length', m, [[names[j], drawn(j, m - L)] for j in present if rng.random() < 0.85]]
+            if kind == 'addcol':
+                present.append(late)
+                return ['addcol', names[late], kinds[late], drawn(late, L)]
+            if L == 0:
+                return None
+            if kind == 'sort':
+                return ['sort', names[rng.choice(present)]]
+            if kind == 'shuffle':
+                return ['shuffle', rng.randrange(10 ** 6)]
+            if kind == 'concat':
+                m = rng.randint(1, 2)
+                oc = list(present)
+                if len(oc) > 1 and rng.random() < 0.15:
+                    oc.remove(rng.choice(oc))           # a column the other table lacks: default cells
+                if rng.random() < 0.3:
+                    rng.shuffle(oc)
+                state['L'] = L + m
+                return ['concat', {'n': m, 'cols': [[names[j], kinds[j], drawn(j, m)] for j in oc], 'rowop': None}]
+            if kind == 'shrink':
+                lo = 0 if rng.random() < 0.15 else 1
+                if lo > L - 1:
+                    return None
+                state['L'] = rng.randint(lo, L - 1)
+                return ['length', state['L'], []]
+            if L < 2:
+                return None
+            if kind == 'index':
+                idx = list(range(L))
+                c = rng.random()
+                if c < 0.35:                            # two rows change places, the others stay
+                    a, b = rng.sample(range(L), 2)
+                    idx[a], idx[b] = idx[b], idx[a]
+                elif c < 0.6:                           # one row moves to the front / the end
+                    x = idx.pop(rng.randrange(L))
+                    idx.insert(rng.choice([0, len(idx)]), x)
+                elif c < 0.8:
+                    rng.shuffle(idx)
+                else:                                   # a selection in any order
+                    idx = rng.sample(range(L), rng.randint(1, L))
+                state['L'] = len(idx)
+                return ['index', idx]
+            if kind == 'slice':
+                a = rng.randint(0, L - 1)
+                b = rng.randint(a + 1, L)
+                state['L'] = b - a
+                return ['slice', a, b]
+            if kind == 'delrow':
+                state['L'] = L - 1
+                return ['delrow', rng.randrange(L)]
+            if kind == 'merge':
+                how = rng.choice(['or', 'or', 'and', 'xor'])
+                a = rng.sample(range(L), rng.randint(1, L))
+                b = rng.sample(range(L), rng.randint(1, L))
+                res = set(a) | set(b) if how == 'or' else set(a) & set(b) if how == 'and' else set(a) ^ set(b)
+                if not res:
+                    return None
+                state['L'] = len(res)
+                return ['merge', how, a, b]
+            raise AssertionError(kind)
+        every = ['sort', 'shuffle', 'index', 'slice', 'grow', 'shrink', 'delrow', 'concat', 'merge']
+        if rng.random() < 0.65:
+            plan = [rng.choice(['sort', 'shuffle', 'index', 'index', 'merge'])]
+            if plan[0] == 'merge':
+                plan.append(rng.choice(['sort', 'shuffle', 'index']))
+            if rng.random() < 0.35:
+                plan.append('shrink')
+            plan.append('grow')
+            if rng.random() < 0.4:
+                plan.append(rng.choice(every))
+            if rng.random() < 0.25:
+                plan.insert(0, rng.choice(['concat', 'grow', 'delrow', 'slice']))
+        else:
+            plan = [rng.choice(every) for _ in range(rng.randint(2, 5))]
+        if late is not None:
+            plan.insert(rng.randint(0, len(plan)), 'addcol')
+        hist = []
+        for kind in plan:
+            if state['L'] >= nmax + 2 and kind in ('grow', 'concat'):
+                kind = 'slice'
+            st = mk(kind)
+            if st is not None:
+                hist.append(st)
+        while state['L'] > nmax:
+            hist.append(mk(rng.choice(['slice', 'delrow', 'shrink', 'index'])) or mk('delrow'))
+        if state['L'] == 0:
+            hist.append(mk('grow'))
+        tab = dict(base, hist=hist)
+        assert hist_len(tab) == state['L'] and 1 <= state['L'] <= nmax, tab
+        return tab, names
+
     def _payload(self, rng, n, k):
         pool = {'KMixed': ['x', 'y', '', 1, 2.5, None, 'é', NAN], 'KFloat': [0.0, 1.5, -2.25, NAN, INF], 'KInt': [0, 1, -3, 7]}[k]
         return [rng.choice(pool) for _ in range(n)]
@@ -704,14 +955,14 @@ class C15:
     def gen_weight(self, rng, tier):
         cases = []
 
-        def one(ws, wkind, tags=(), reorder=None):
+        def one(ws, wkind, tags=(), reorder=None, hist=False):
             n = len(ws)
             cols = [(wkind, ws)]
             for k in rng.sample(KINDS, rng.randint(1, 3)):
                 cols.append((k, self._payload(rng, n, k)))
             rng.shuffle(cols)
             widx = [i for i, c in enumerate(cols) if c[1] is ws][0]
-            tab, names = self._table(rng, n, cols, reorder or 'any')
+            tab, names = self._hist_table(rng, n, cols, 5) if hist else self._table(rng, n, cols, reorder or 'any')
             cases.append(self.rerun({'op': 'weight', 'tab': tab, 'wname': names[widx], 'tags': list(tags)}))
         maxn = 3
         for n in range(1, maxn + 1):
@@ -734,6 +985,14 @@ class C15:
             one([rng.choice(['a', None, '']) for _ in range(n)], 'KMixed', ['invalid'])
         one([], 'KMixed', ['empty'], 'asis')
         one([], 'KInt', ['empty'], 'asis')
+        # the weighted table reached through a history (reordered, then grown / shrunk and grown, concatenated, merged,
+        # rows deleted, sliced): row i of the table AS IT READS NOW appears w_i times
+        for _ in range(60 if tier == 'quick' else 700):
+            one([rng.randint(0, 4) for _i in range(rng.randint(1, 4))], rng.choice(['KMixed', 'KInt']), ['history'], hist=True)
+        for _ in range(15 if tier == 'quick' else 150):
+            ws = [rng.randint(0, 4) for _i in range(rng.randint(2, 4))]
+            ws[rng.randrange(len(ws))] = rng.choice(bad)
+            one(ws, 'KMixed', ['history', 'invalid'], hist=True)
         # tables that also hold series columns (judged on the Python side): every weight vector in 0..3 for 1-2 rows,
         # sampled longer ones, invalid weights, several series columns of different depth, reordered rows
         def with_series(ws, wkind):
@@ -789,7 +1048,7 @@ class C15:
         cases = []
         values = ['a', 'b', 1, 2, 2.5, None, 'é', 0, -1, 'a', 1]      # duplicates on purpose
 
-        def design(ncol, nrow, mask, ig, default_ignore, reorder=None, kinds=None):
+        def design(ncol, nrow, mask, ig, default_ignore, reorder=None, kinds=None, hist=False):
             cols = []
             for c in range(ncol):
                 cells = []
@@ -805,7 +1064,8 @@ class C15:
                 if kd != 'KMixed':
                     cells = [rng.randint(0, 3) for _ in range(nrow)]
                 cols.append((kd, cells))
-            tab, _names = self._table(rng, nrow, cols, reorder)
+            more = {c: [v for v in rng.sample(values, 3) if not _pyeq(v, ig)] for c in range(ncol) if cols[c][0] == 'KMixed'}
+            tab, _names = self._hist_table(rng, nrow, cols, 4, more) if hist else self._table(rng, nrow, cols, reorder)
             cases.append(self.rerun({'op': 'ff', 'tab': tab, 'ignore': pyobs.enc(ig), 'default_ignore': default_ignore}))
         igs = ['', 0, 'q', None, NAN, 2.5]
         for ncol in range(1, 4):
@@ -821,6 +1081,14 @@ class C15:
             mask = [1 if rng.random() < p else 0 for _ in range(ncol * nrow)]
             ig = '' if rng.random() < 0.6 else rng.choice(igs)
             design(ncol, nrow, mask, ig, ig == '' and rng.random() < 0.8)
+        # the design table reached through a history: levels added after the rows were sorted / shuffled / partly
+        # moved / merged, rows deleted, tables concatenated; every combination of the cells AS THEY READ NOW, once
+        for _ in range(90 if tier == 'quick' else 1200):
+            ncol, nrow = rng.choice([1, 2, 2, 3, 3, 4]), rng.choice([1, 2, 2, 3, 3, 3])
+            p = rng.choice([0.0, 0.2, 0.4])
+            mask = [1 if rng.random() < p else 0 for _ in range(ncol * nrow)]
+            ig = '' if rng.random() < 0.7 else rng.choice(igs)
+            design(ncol, nrow, mask, ig, ig == '' and rng.random() < 0.8, hist=True)
         # outside the quantifier (model only): non-Mixed columns, no columns
         for _ in range(6):
             design(2, 2, [0, 0, 0, 0], '', True, kinds=rng.choice([['KMixed', 'KInt'], ['KFloat', 'KMixed'], ['KInt', 'KInt']]))
@@ -845,15 +1113,15 @@ class C15:
             'KInt': [100, 101, 55, 2.7, -8.9, 3.0, 1, 2],
         }
 
-        def one(kd, mapping, tags):
-            n = rng.randint(1, 6)
+        def one(kd, mapping, tags, hist=False):
+            n = rng.randint(1, 6 if not hist else 4)
             cells = [rng.choice(pools[kd]) for _ in range(n)]
             cols = [(kd, cells)]
             for k in rng.sample(KINDS, rng.randint(0, 2)):
                 cols.append((k, self._payload(rng, n, k)))
             rng.shuffle(cols)
             idx = [i for i, c in enumerate(cols) if c[1] is cells][0]
-            tab, names = self._table(rng, n, cols, 'any')
+            tab, names = self._hist_table(rng, n, cols, 6) if hist else self._table(rng, n, cols, 'any')
             cases.append(self.rerun({'op': 'replace', 'tab': tab, 'col': names[idx],
                                      'mapping': [[pyobs.enc(k), pyobs.enc(v)] for k, v in mapping], 'tags': tags}))
         reps = 110 if tier == 'quick' else 1500
@@ -862,6 +1130,10 @@ class C15:
                 nk = rng.randint(0, 4)
                 keys = rng.sample(keyp[kd], min(nk, len(keyp[kd])))
                 one(kd, [(k, rng.choice(valp[kd])) for k in keys], ['mapping:random'])
+            for _ in range(reps // 4):
+                # the column of a table that has a history (reordered, grown, merged, ...)
+                keys = rng.sample(keyp[kd], rng.randint(1, 4))
+                one(kd, [(k, rng.choice(valp[kd])) for k in keys], ['mapping:random', 'history'], hist=True)
             for _ in range(reps // 4):
                 # chains: a value that is itself a later / earlier key (outside the quantifier: model only)
                 ks = rng.sample([k for k in pools[kd] if k == k], min(3, len(pools[kd]) - 1))
@@ -887,10 +1159,10 @@ class C15:
         cases = []
         vias = ['keep_only', 'keep_only_list', 'getitem_tuple', 'getitem_list']
 
-        def one(ncol, args, via, alias=None):
-            n = rng.randint(0 if rng.random() < 0.05 else 1, 4)
+        def one(ncol, args, via, alias=None, hist=False):
+            n = rng.randint(0 if rng.random() < 0.05 and not hist else 1, 4)
             cols = [(k, self._payload(rng, n, k)) for k in [rng.choice(KINDS) for _ in range(ncol)]]
-            tab, names = self._table(rng, n, cols, 'any')
+            tab, names = self._hist_table(rng, n, cols, 5) if hist else self._table(rng, n, cols, 'any')
             real = []
             for a in args:
                 if a[0] == 'name':
@@ -924,6 +1196,11 @@ class C15:
                 args.append(('name', i) if c < 0.4 else ('obj', i) if c < 0.75 else ('unknown', i) if c < 0.87
                             else ('foreign', rng.randrange(ncol + 1)) if c < 0.95 else ('other', 0))
             one(ncol, args, rng.choice(vias), alias=(rng.randrange(ncol) if rng.random() < 0.12 else None))
+        # all rows (as they are now) of a table that has a history, with exactly the named columns
+        for _ in range(45 if tier == 'quick' else 500):
+            ncol = rng.randint(1, 4)
+            sub = rng.sample(range(ncol), rng.randint(1, ncol))
+            one(ncol, [(rng.choice(['name', 'obj']), i) for i in sub], rng.choice(vias), hist=True)
         # selection by object after the column's name was looked up and the column was renamed / re-added / swapped:
         # the object must be found under its CURRENT name
         for _ in range(90 if tier == 'quick' else 900):
@@ -962,14 +1239,14 @@ class C15:
     def gen_z(self, rng, tier):
         cases = []
 
-        def one(kd, cells, exact_s=None, tags=()):
+        def one(kd, cells, exact_s=None, tags=(), hist=False):
             n = len(cells)
             cols = [(kd, cells)]
             for k in rng.sample(KINDS, rng.randint(0, 2)):
                 cols.append((k, self._payload(rng, n, k)))
             rng.shuffle(cols)
             idx = [i for i, c in enumerate(cols) if c[1] is cells][0]
-            tab, names = self._table(rng, n, cols, 'any')
+            tab, names = self._hist_table(rng, n, cols, max(n, 3) + 2) if hist else self._table(rng, n, cols, 'any')
             inp = {'op': 'z', 'tab': tab, 'col': names[idx]}
             if exact_s is not None:
                 inp['exact_s'] = [exact_s.numerator, exact_s.denominator]
@@ -1061,6 +1338,8 @@ class C15:
             for _j in range(rng.randint(0, 3) if junk else 0):
                 cells.insert(rng.randrange(len(cells) + 1), rng.choice(junk))
             one(kd, cells)
+            if _ % 4 == 0:          # the column of a table that has a history (the cells as they are then)
+                one(kd, cells, tags=['z:history'], hist=True)
         # families with a rational standard deviation: a-d, a, a+d  and  a-d, a-d, a, a+d, a+d  (s = d)
         for _ in range(40 if tier == 'quick' else 400):
             kd = rng.choice(['KFloat', 'KMixed', 'KInt'])
@@ -1135,17 +1414,34 @@ class C15:
         tab = inp['tab']
         needed = {inp.get('wname'), inp.get('col')} | {list(a.values())[0] for a in inp.get('args', [])} \
             | set(inp.get('alias') or []) | {x for st in (inp.get('prep') or []) for x in st[1:]}
+        if tab.get('hist'):
+            # a shorter history (only well-formed ones: every step must fit the state it meets), fewer cells written
+            # after a growth; the mapping / arguments below
+            h = tab['hist']
+            for i in range(len(h)):
+                if h[i][0] == 'addcol' and h[i][1] in needed:
+                    continue
+                t2 = dict(tab, hist=h[:i] + h[i + 1:])
+                n2 = hist_len(t2)
+                if n2 is not None and n2 >= 1:
+                    yield dict(inp, tab=t2)
+            for i, st in enumerate(h):
+                if st[0] == 'length' and len(st[2]) > 1:
+                    for j in range(len(st[2])):
+                        yield dict(inp, tab=dict(tab, hist=h[:i] + [[st[0], st[1], st[2][:j] + st[2][j + 1:]]] + h[i + 1:]))
         # drop a column that the operation does not name
-        for i, c in enumerate(tab['cols']):
+        for i, c in enumerate(tab['cols'] if not tab.get('hist') else []):
             if c[0] not in needed and (op != 'ff') and len(tab['cols']) > 1:
                 t2 = dict(tab, cols=tab['cols'][:i] + tab['cols'][i + 1:],
                           post=[pc for pc in (tab.get('post') or []) if pc[0] != c[0]] or None)
                 yield dict(inp, tab=t2)
-        if op == 'ff' and len(tab['cols']) > 1:
+        if op == 'ff' and len(tab['cols']) > 1 and not tab.get('hist'):
             for i in range(len(tab['cols'])):
                 yield dict(inp, tab=dict(tab, cols=tab['cols'][:i] + tab['cols'][i + 1:]))
         # materialise the row order, then drop rows
-        if tab.get('rowop') is not None and not tab.get('post'):
+        if tab.get('hist'):
+            pass
+        elif tab.get('rowop') is not None and not tab.get('post'):
             ro = tab['rowop']
             t2 = {'n': len(ro), 'cols': [[c[0], c[1], [c[2][j] for j in ro]] for c in tab['cols']], 'rowop': None}
             yield dict(inp, tab=t2)
